@@ -27,7 +27,7 @@ META = {
         "warnings: at least one per unsupported non-blank line and at most one more per blank line (the documentation is silent on blank lines)",
         "a custom edge type's own from_g2o is harness code; what is checked is its dispatch (one object per line, in order, unaffected by other lines)",
     ],
-    "required_classes": ["huge_ids", "two_custom_types", "perm", "junk1", "junk2", "fmt", "sep", "loader", "crlf", "near_miss_tag", "custom_tag", "param_resolved"],
+    "required_classes": ["duplicate_line", "huge_ids", "two_custom_types", "perm", "junk1", "junk2", "fmt", "sep", "loader", "crlf", "near_miss_tag", "custom_tag", "param_resolved"],
     "bounds": {"quick": "all 5040 + 2520 line orders; junk <= 2 insertions into 2 base files; 10 formats x every field; 3 separators x 3 endings x 6 loaders", "thorough": "same + junk pairs on every rotation of the base files + 3 insertions of the near-miss tags"},
 }
 
@@ -110,6 +110,7 @@ JUNK = [
     ("near_miss", "VERTEX_SE3 97 1 2 3 0 0 0 1"),
     ("near_miss", "EDGE_SE3:QUATX 10 -4 1 2 3 0 0 0 1"),
     ("near_miss", "FIX 0"),
+    ("dup_line", None),  # an exact duplicate of the first EDGE line of the base file: two lines, two objects
 ]
 BIG_IDS = ["9007199254740993", "-9007199254740993", "9223372036854775807", "4611686018427387909", "+17", "0042"]
 FORMATS = ["1", "1.0", "+1.0", "1e0", "1E+0", ".5", "5.", "-0.0", "0.12345678901234567", "1e-300"]
@@ -258,7 +259,12 @@ def text_of(case):
             lines = cand if legal(list(range(7)), cand) else base
         lines = list(lines)
         # insert from the highest position down so that positions refer to the base file
+        first_edge = [l for l in lines if isinstance(l, list) and l[0].startswith("EDGE")][0]
         for pos, j in sorted(case["ins"], key=lambda x: -x[0]):
+            if JUNK[j][0] == "dup_line":
+                lines.insert(pos, list(first_edge))
+                classes.append("duplicate_line")
+                continue
             lines.insert(pos, JUNK[j][1])
             if JUNK[j][0] == "near_miss":
                 classes.append("near_miss_tag")
@@ -271,7 +277,7 @@ def text_of(case):
         if case["eol"] == "\r\n":
             classes.append("crlf")
     elif t == "empty":
-        lines = [JUNK[j][1] for j in case["ins"]]
+        lines = [JUNK[j][1] or "" for j in case["ins"]]
     elif t == "bigid":
         for ln in lines:
             if ln[0].startswith("VERTEX") or ln[0] == "CUSTOM_PRIOR":
